@@ -301,7 +301,9 @@ func init() {
 var oddBytes = []string{"\x00", "\x01", " ", "\xff", "\t", "\n", ":", "/", "A", "x", "\x7f", "\u00a0"}
 
 func nearMiss(r *rng, s string) string {
-	switch r.intn(18) {
+	switch r.intn(19) {
+	case 18: // nothing but one or two odd bytes (a lone NUL matches the filler of a fixed-size table)
+		return strings.Repeat(r.pick(oddBytes), 1+r.intn(2))
 	case 17: // a name from a fixed-width buffer: padded to 3 or 4 bytes with NULs or spaces
 		pad := r.pick([]string{"\x00", " "})
 		if w := 3 + r.intn(2); len(s) < w {
